@@ -17,7 +17,7 @@ ASSUMPTIONS = ["torn writes inside one request are outside the property (faults 
                "a store/restore addressed to a group that is not enabled may be accepted without effect or refused",
                "the abort code for a wrong signature / failed NVM access is not constrained (must be an abort)",
                "after a surfaced short read, which of the remaining groups the failed reload still loads is not constrained"]
-VARIANTS = ["asan"]
+VARIANTS = ["asan", "lean"]
 
 SAVE, LOAD = 0x65766173, 0x64616F6C
 
@@ -351,7 +351,10 @@ def plan(tier, seed):
 
 def work(item, ctx):
     res = F.Res()
-    exe = ctx["exes"]["asan"]
+    # every fourth item on a build without LSS slave and SDO client (parameter handling may not depend on either)
+    exe = ctx["exes"]["lean" if item[1] % 4 == 3 else "asan"]
+    if item[1] % 4 == 3:
+        res.counters["sequences_on_build_without_lss"] += item[2]
     for h in range(item[2]):
         rng = random.Random(F.seed_for(ctx["seed"], "C17", item[1], h))
         lay = Layout(rng)
